@@ -607,6 +607,17 @@ class Registry:
             if rtyp is None or rtyp is type(None):
                 result = None
             else:
+                if rtyp is bytes:
+                    # ensures(len(result) == <literal>) (possibly as the first conjunct): the fresh result gets that concrete length, so that
+                    # concatenations keep track of their pieces
+                    for c in con.of("ensures"):
+                        e = c.arg(0)
+                        if isinstance(e, ast.BoolOp) and isinstance(e.op, ast.And):
+                            e = e.values[0]
+                        if (isinstance(e, ast.Compare) and len(e.ops) == 1 and isinstance(e.ops[0], ast.Eq) and ast.unparse(e.left) == "len(result)"
+                                and isinstance(e.comparators[0], ast.Constant) and isinstance(e.comparators[0].value, int)):
+                            rtyp = api.Bytes(e.comparators[0].value)
+                            break
                 result = self.make_symbolic(it, "ret_" + short.split(".")[-1], rtyp)
         fr.result = result
         # an ensures clause  <modified field> == E  (possibly under an implies whose condition holds here) defines that field
